@@ -34,6 +34,13 @@ func directed() []tcase {
 		{"count-kept", occ4.Scenario{Slot: 8, Init: [][]occ4.Op{add(10, 20)}, Writers: []occ4.WriterSpec{{Ops: add(1, 2), Fault: srAfter}}}, []int{0, 0, 0}, false},
 		// the same on a store without a root node: count 2, no root; a scan cannot load the root (no items), later adds fail
 		{"count-kept-no-root", occ4.Scenario{Slot: 8, Writers: []occ4.WriterSpec{{Ops: add(1, 2), Fault: srAfter}}}, []int{0, 0, 0}, false},
+		// the same on a store that was emptied (root node with no items): count 2, empty root. A new transaction's
+		// Find then indexes the empty root's slot array at -1
+		{"count-kept-empty-root", occ4.Scenario{Slot: 8, Init: [][]occ4.Op{add(40), {{Kind: "rm", Key: 40}}}, Writers: []occ4.WriterSpec{{Ops: add(1, 2), Fault: srAfter}}}, []int{0, 0, 0}, false},
+		// no fault at all: the count delta is applied in phase 1 (commitStoreInfo), the nodes become active in phase 2;
+		// a reader that comes in between (the writer is parked before its registry flip) sees count 1 and the empty root
+		{"reader-between-count-and-flip", occ4.Scenario{Slot: 8, Init: [][]occ4.Op{add(40), {{Kind: "rm", Key: 40}}}, Writers: []occ4.WriterSpec{{Ops: add(1)}},
+			SubGates: []occ4.SubGate{{Writer: 0, Name: "reg.UpdateNoLocks", Occ: 2}}, ProbeAtSubPark: true}, []int{0, 0, 0, 0}, false},
 		{"clean-fail", occ4.Scenario{Slot: 8, Init: [][]occ4.Op{add(10, 20)}, Writers: []occ4.WriterSpec{{Ops: add(1, 2), Fault: srBefore}, {Ops: add(3)}}}, []int{0, 0, 0, 1, 1, 1}, false},
 		// a failure after beforeFinalize: rollback applies the exact reverse delta
 		{"late-fail", occ4.Scenario{Slot: 8, Init: [][]occ4.Op{add(10, 20)}, Writers: []occ4.WriterSpec{
@@ -49,7 +56,15 @@ func directed() []tcase {
 
 var variant = "repaired"
 
-func runCase(ctx context.Context, s *hx.Session, tc tcase) error {
+func runCase(ctx context.Context, s *hx.Session, tc tcase) (err error) {
+	// a panic anywhere inside one case (harness or real code on this goroutine) is recorded against that case and the
+	// run goes on
+	defer func() {
+		if p := recover(); p != nil {
+			s.Fail("C06/panic-in-case", "a case of the harness panicked", fmt.Sprintf("%s: %v", tc.name, p))
+			err = nil
+		}
+	}()
 	hdr := fmt.Sprintf("%s variant=%s slot=%d writers=%d", tc.name, variant, tc.sc.Slot, len(tc.sc.Writers))
 	o, err := occ4.Drive(ctx, s, tc.sc, tc.sched, hdr, tc.root)
 	if err != nil {
@@ -77,6 +92,12 @@ func runCase(ctx context.Context, s *hx.Session, tc tcase) error {
 	if o.Unfinished {
 		s.Hit("unfinished")
 	}
+	// ---- direct oracle: a new transaction that reads the store must not crash ----
+	for _, rp := range o.ReaderPanics {
+		s.Hit("reader_panic")
+		s.Fail("C06/panic-in-cold-"+occ4.PanicSlug(rp), "a new transaction reading the store after this history panics inside the B-tree (the process dies)",
+			fmt.Sprintf("init=%s writers=%v sched=%v results=%v counts=%v: %s", occ4.InitArg(tc.sc.Init), tc.sc.Writers, tc.sched, o.Results, o.Counts, rp.Error()))
+	}
 	// ---- direct oracle: after every finished transaction, Count() == number of items a scan returns ----
 	prevOff := int64(0)
 	for i := range o.Counts {
@@ -85,7 +106,7 @@ func runCase(ctx context.Context, s *hx.Session, tc tcase) error {
 		// an item of the store and must not shift the offset attributed to later transactions
 		n := 0
 		for _, it := range o.Items[i] {
-			if it != "0=" {
+			if it != "0=" && it != "!panic" && it != "0=!notfound" {
 				n++
 			}
 		}
